@@ -1,6 +1,6 @@
 //! C02: the client-reachable helpers no other property calls directly —
 //! `kvarn_utils::parse::query` + `Query`'s iterators, `comprash::PathQuery`, and (exploration)
-//! the `time` crate's parser for `if-modified-since` as `handle_cache` calls it.
+//! `url_crawl`'s link iterators.
 //! Every call runs under `crate::guarded`: a panic is the outcome `(L (N 2))`.
 use crate::xval::X;
 use kvarn::prelude::*;
@@ -92,28 +92,24 @@ fn pathquery(x: &X) -> X {
     X::L(vec![p, q])
 }
 
-/// exploration: `if-modified-since` as `handle_cache` treats it on a cache hit
-/// (`HeaderValue::to_str`, `PrimitiveDateTime::parse(s, &HTTP_DATE)`, `assume_utc`, `>= creation - 1 s`).
-fn explore_date(x: &X) -> X {
-    use kvarn::prelude::chrono::*;
+/// exploration: `url_crawl` (anchor url-crawl/src/lib.rs; the HTTP/2 push extension runs `get_urls` on every HTML page
+/// it serves, the reverse proxy runs the absolute-path iterator on upstream bodies).  input: (B html)
+fn explore_urls(x: &X) -> X {
     let v = match x.as_b() {
         Some(b) => b,
         None => return X::bad(),
     };
-    let hv = match HeaderValue::from_bytes(v) {
-        Ok(h) => h,
-        Err(_) => return ood(),
-    };
     match std::panic::catch_unwind(std::panic::AssertUnwindSafe(|| {
-        let creation = OffsetDateTime::now_utc();
-        let ims: Option<OffsetDateTime> = hv
-            .to_str()
-            .ok()
-            .and_then(|s| time::PrimitiveDateTime::parse(s, &comprash::HTTP_DATE).ok().map(time::PrimitiveDateTime::assume_utc));
-        ims.map_or(false, |timestamp| timestamp >= creation - 1.seconds())
+        let mut n = 0usize;
+        if let Ok(s) = std::str::from_utf8(v) {
+            n += url_crawl::get_urls(s).count();
+        }
+        n += url_crawl::LinkIter::new_with_aboslute_paths_filter(v).count();
+        n += url_crawl::LinkIter::new(v, url_crawl::filters::resource, true).count();
+        n
     })) {
         Ok(_) => X::ok(X::L(vec![])),
-        Err(_) => X::L(vec![X::N(2), X::b(b"panic in if-modified-since handling")]),
+        Err(_) => X::L(vec![X::N(2), X::b(b"panic in url_crawl")]),
     }
 }
 
@@ -160,7 +156,7 @@ pub fn dispatch(comp: &str, x: &X) -> Option<X> {
         "query.iter" | "query.iter_v0" => query_iter(x),
         "pathquery" => pathquery(x),
         "cc.kvarn" => cc_kvarn(x),
-        "explore.date" => explore_date(x),
+        "explore.urls" => explore_urls(x),
         _ => return None,
     })
 }
